@@ -66,5 +66,12 @@ def run():
     expect(2 in rej, f"trace with a removed Compile event rejected: {rej.get(2)}")
     expect((3 in rej and int(rej[3]["clause"]) in (8, 9)) or not flat,
            f"changed object identity rejected by the renaming clauses: {rej.get(3)}")
+    # ---------------- Tier M: the mechanism model is not vacuous
+    _, st = tlcrun.run_tlc("FoldSys.tla", "FoldSys_exact.cfg", "selftest_fold", coverage=False)
+    expect(st.get("completed") and not st.get("invariant_violated"),
+           f"FoldSys.tla (shortcut condition of the code) refines the unfolded semantics ({st.get('distinct')} states)")
+    _, st = tlcrun.run_tlc("FoldSys.tla", "FoldSys_sorted.cfg", "selftest_fold2", coverage=False)
+    expect(st.get("invariant_violated") == "FoldRefines",
+           "FoldSys.tla with the weakened shortcut condition of seeded change C01-m1 violates FoldRefines")
     print("selftest", "passed" if ok else "FAILED")
     return 0 if ok else 1
